@@ -183,6 +183,41 @@ def run(ctx):
                 add("pdec %d %d %d %d %d %s %s" % (ty, fl, sub, pid, se, hx(wire), inflated), res(dec), "payload-decode", dict(sess, ops=list(sess["ops"])))
                 if wire is out and ty == 2 and not isinstance(dec, Exception) and dec != payload:
                     ctx.violation("payload-roundtrip", "PayloadEncoder.decode(encode(payload)) != payload on the real code", dict(sess, ops=list(sess["ops"])))
+    # frames of a conforming FOREIGN peer (the library deflates everything it sends; a peer may also store small or incompressible
+    # payloads behind a ratio byte 0): produced by the framing rule + a second, compression-less encoder with the same keys
+    for sidx in range(16 * scale):
+        transport = rng.choice([0, 0, 1, 2]); maxsub = rng.randint(0, 2)
+        s = make_settings(transport=transport)
+        s["prudp.compression"] = 1; s["prudp.max_substream_id"] = maxsub
+        s2 = s.copy(); s2["prudp.compression"] = 0
+        enc, peer = prudp.PayloadEncoder(s), prudp.PayloadEncoder(s2)
+        add("pnew %d %d %d" % (transport, 1, maxsub), "ok", "payload-new")
+        sess = {"transport": transport, "compression": 1, "max_substream": maxsub, "foreign_peer": True, "ops": []}
+        k = rng.choice([rng.randbytes(16), rng.randbytes(32), b""])
+        r = safe(enc.set_session_key, k); safe(peer.set_session_key, k)
+        sess["ops"].append(["key", k.hex()])
+        add("pkey " + hx(k), "err " + exc_name(r) if isinstance(r, Exception) else "ok", "payload-set-key", dict(sess, ops=list(sess["ops"])))
+        for j in range(rng.randint(8, 20)):
+            fl = rng.choice([2, 2, 6, 0]); sub = rng.randint(0, maxsub)
+            pid = rng.randint(0, 65535); se = rng.randint(0, 255)
+            n = rng.choice([1, 2, 7, 40, 300, 1300, rng.randint(1, 1400)])
+            payload = compressible(rng, n) if rng.random() < 0.7 else rng.randbytes(n)
+            stored = rng.random() < 0.6
+            z = zlib.compress(payload)
+            frame = b"\x00" + payload if stored else bytes([len(payload) // len(z) + 1]) + z
+            p = prudp.PRUDPPacket(2, fl); p.substream_id = sub; p.packet_id = pid; p.session_id = se; p.payload = frame
+            wire = safe(peer.encode, p)
+            if not isinstance(wire, bytes):
+                break
+            q = prudp.PRUDPPacket(2, fl); q.substream_id = sub; q.packet_id = pid; q.session_id = se; q.payload = wire
+            dec = safe(enc.decode, q)
+            sess["ops"].append(["dec", 2, fl, sub, pid, se, wire.hex()])
+            add("pdec %d %d %d %d %d %s %s" % (2, fl, sub, pid, se, hx(wire), "-" if stored else hx(payload)), res(dec), "payload-decode-foreign-" + ("stored" if stored else "deflated"), dict(sess, ops=list(sess["ops"])))
+            if dec != payload:
+                ctx.violation("foreign-frame:" + ("stored" if stored else "deflated"),
+                              "a %s compression frame as a conforming peer may send it (%d payload bytes, ratio byte %d) is not decoded to its payload by the real code: %s"
+                              % ("stored" if stored else "deflated", len(payload), frame[0], repr(dec)[:100]), dict(sess, ops=list(sess["ops"])))
+                break
     # ratio byte at its boundaries (compression framing given zlib's output)
     add("pnew 1 1 0", "ok", "payload-new")
     zc = prudp.ZlibCompression()
@@ -360,6 +395,11 @@ def run(ctx):
         for creds in (True, False):
             for k in (range(0, 9) if quick else range(0, 25)):
                 jobs.append((version, v0, creds, k, ctx.rng.getrandbits(16)))
+    # the same against a server configured for both encodings (prudp.version = 2): each peer is served in the encoding it speaks
+    for version, v0 in ((0, (0, 1, 1)), (1, (0, 1, 1)), (0, (1, 0, 0))):
+        for creds in (True, False):
+            for k in ((0, 3, 6) if quick else range(0, 25, 2)):
+                jobs.append((version, v0, creds, k, ctx.rng.getrandbits(16), True))
     nsess = nsd = 0
     with multiprocessing.Pool(min(16, os.cpu_count() or 4)) as pool:
         for job, sess, err in pool.imap_unordered(session_job, jobs, chunksize=2):
@@ -368,13 +408,13 @@ def run(ctx):
                 continue
             r = l1_corr.compare(drv2, sess, "x")
             nsess += 1
-            ctx.case(key=("session",) + tuple(job[:4]), nontrivial=True, tag="session:v%d:%s:lost-%d" % (job[0], "creds" if job[2] else "nocreds", job[3]))
+            ctx.case(key=("session",) + tuple(job[:4]) + (len(job),), nontrivial=True, tag="session:v%d%s:%s:lost-%d" % (job[0], "-at-dual-stack-server" if len(job) > 5 else "", "creds" if job[2] else "nocreds", job[3]))
             if not r["ok"]:
                 nsd += 1
                 d = r["diffs"][0]
                 if nsd <= 4:
                     ctx.violation("wire-mismatch:session:v%d" % job[0],
-                                  "session (prudp v%d, v0 variant %r, %s credentials, genuine datagram #%d lost once): what the real endpoint '%s' emits differs from the protocol reference: %s"
+                                  ("session (prudp v%d" + (" client at a server configured for both encodings" if len(job) > 5 else "") + ", v0 variant %r, %s credentials, genuine datagram #%d lost once): what the real endpoint '%s' emits differs from the protocol reference: %s")
                                   % (job[0], job[1], "with" if job[2] else "without", job[3], d.get("endpoint"), json.dumps(d, default=repr)[:600]),
                                   {"job": list(job), "first_difference": d, "how": "harness/corr_C08.py session_job(job) then l1_corr.compare(driver C02, session)"})
     ctx.extra["sessions_replayed"] = nsess
@@ -390,14 +430,16 @@ def run(ctx):
 def session_job(job):
     import traceback, random
     import prudp_session as psess
-    version, v0, creds, k, seed = job
+    version, v0, creds, k, seed = job[:5]
+    dual = len(job) > 5 and job[5]
     try:
         cfg = psess.Cfg(version=version, v0=v0, credentials=creds, fragment_size=9, resend_timeout=0.5, resend_limit=3, max_substream=(1 if version else 0))
+        cfg_s = psess.Cfg(**dict(cfg.describe(), version=2)) if dual else None      # a server that takes v0 and v1 peers on one port
         rng = random.Random(seed)
         script = [[("c", 0, rng.randbytes(20)), ("s", 0, rng.randbytes(9)), ("c", 0, ("u", rng.randbytes(5)))],
                   [("s", (1 if version else 0), rng.randbytes(3)), ("c", 0, rng.randbytes(1))]]
         fate = lambda sim, r: (lambda tx: [] if tx.g == k else [0.01])
-        sess = psess.run_session(cfg, seed, script, fate, phases_gap=1.0)
+        sess = psess.run_session(cfg, seed, script, fate, phases_gap=1.0, cfg_s=cfg_s)
         sess.transport = None
         return job, sess, None
     except Exception:
